@@ -204,6 +204,62 @@ impl World {
 		true
 	}
 
+	/// C07: the archive entry of (n, chan) that is the node's *previous* holder commitment and
+	/// not yet revoked (its peer has signed the next one, the revoke_and_ack is still to come):
+	/// either side may legitimately see it confirmed.
+	pub fn previous_unrevoked(&self, n: usize, chan: usize) -> Option<ArchEntry> {
+		let c = &self.chans[chan];
+		let peer = if c.a == n { c.b } else { c.a };
+		let (pm, xm) = match (self.nodes[peer].live.as_ref(), self.nodes[n].live.as_ref()) {
+			(Some(p), Some(x)) => (p.monitor.clone(), x.monitor.clone()),
+			_ => return None,
+		};
+		let peer_min_secret = pm.get_monitor(c.channel_id).ok()?.verif_numbers().2;
+		let current = xm.get_monitor(c.channel_id).ok()?.verif_numbers().0;
+		self.archive
+			.get(&(n, chan))?
+			.iter()
+			.find(|e| e.number == current + 1 && e.number < peer_min_secret)
+			.cloned()
+	}
+
+	/// The previous, still unrevoked holder commitment of `n` is mined (a watchtower, a backup
+	/// restored by the operator, a transaction broadcast just before the update: all legitimate).
+	pub fn do_close_prev(&mut self, n: usize, chan: usize) -> bool {
+		if chan >= self.chans.len() || n >= self.nodes.len() {
+			return false;
+		}
+		if !self.chain.utxos.contains_key(&self.chans[chan].funding) {
+			return false;
+		}
+		let e = match self.previous_unrevoked(n, chan) {
+			Some(e) => e,
+			None => return false,
+		};
+		let tx = e.txs[0].clone();
+		let r = self.chain.admit_ext(&tx, true, true);
+		self.note(&format!("previous unrevoked commitment {} of node {} on channel {} mined -> {:?}", tx.compute_txid(), n, chan, r));
+		if !matches!(r, Admit::Accepted | Admit::Replaced(_)) {
+			return false;
+		}
+		self.out.bump("fault:closed_by_previous_unrevoked_commitment");
+		self.chans[chan].close_requested = true;
+		if self.chans[chan].force_closed_by.is_none() {
+			self.chans[chan].force_closed_by = Some(n);
+		}
+		// whoever put an older state on chain must not carry on (it would go on to revoke what it
+		// has just broadcast): the node stops for good; what is checked is how its peer copes
+		self.complete_all_monitor_writes(n);
+		if self.do_crash(n, &vec![0u8; 8]) {
+			self.nodes[n].gone = true;
+		}
+		self.do_mine(1);
+		for x in 0..self.nodes.len() {
+			self.do_sync(x, 255);
+		}
+		true
+	}
+
 	/// The cheater hands whatever second-stage transactions it still has to the miner.
 	pub fn cheater_push(&mut self) -> bool {
 		let later = match self.cheat.as_ref() {
